@@ -460,8 +460,8 @@ def _c07(names, module, fn, what):
 
 
 PROPS["C07"] = {
-    "level": "other",
-    "explanation": "BOUNDED stand-ins only (never counted as proved): Kani instruments every index, slice, arithmetic overflow, unwrap and unwinding bound; each obligation feeds every byte string of ONE concrete length through a decoder of the real crate. Lengths covered are listed per obligation. Not decided: walkers inside async handlers (SCTP, DTLS reassembly, TURN/TCP framing), SDP/candidate parsers, allocation proportionality, promptness.",
+    "level": "proof",
+    "explanation": "Verus units (kind proof): the verbatim byte-level decoders and walkers are total for input of ANY length (indices, ranges, Buf reads, arithmetic, termination). Kani stand-ins (kind bounded, never counted as proved): every byte string of ONE concrete length through a decoder of the real crate. Not decided: what handlers do with parsed values, SDP/candidate parsers, T.38, allocation proportionality, promptness.",
     "trusted_base": ["inputs handed over as Bytes::from_static (representation independence of Bytes assumed)"],
     "kani": (
         _c07(["c07_client_hello_0", "c07_client_hello_33", "c07_client_hello_34"], HM2, "ClientHello::decode", "ClientHello::decode")
